@@ -356,7 +356,7 @@ func runControls(p *Property) (bool, []string) {
 	for _, e := range p.Expect {
 		hit := false
 		for _, o := range rep.Obs {
-			if o.Rule == e.Rule && o.Status == Violated && strings.Contains(o.Construct, e.Contains) {
+			if o.Rule == e.Rule && (o.Status == Violated || o.Status == Undecided) && strings.Contains(o.Construct, e.Contains) {
 				hit = true
 				break
 			}
